@@ -5,12 +5,12 @@ import ast
 import re
 
 from ..absval import Lin, Undecided, eval_expr, eval_function, linform
-from ..core import (AnalysisError, call_name, const, dotted, is_const, kwarg, local_defs, norm, origin,
+from ..core import (alpha, AnalysisError, call_name, const, dotted, is_const, kwarg, local_defs, norm, origin,
                     parent_map, walk_local)
 from ..facts import default_of, guards_of, returns_of, enclosing_loops, assigned_subscripts
 from ..rules.nonmut import mutations
 from ..shape import walk_paths
-from ..pattern import pmatch, pfind
+from ..pattern import pmatch, pfind, pall
 
 CONV = "synkit/IO/chem_converter.py"
 N2G = "synkit/IO/nx_to_gml.py"
@@ -51,37 +51,70 @@ def run(rep):
     rep.run(gml_reader)
 
 
-def _dict_literal(fi, name):
+def _dict_literals(fi):
+    """[(name, {key: value}, node)] for locals assigned a literal dict of constants"""
+    out = []
     for n in walk_local(fi.node):
-        if isinstance(n, ast.Assign) and norm(n.targets[0]) == name and isinstance(n.value, ast.Dict):
+        if isinstance(n, ast.Assign) and isinstance(n.targets[0], ast.Name) and isinstance(n.value, ast.Dict) and n.value.keys:
             try:
-                return {const(k): const(v) for k, v in zip(n.value.keys, n.value.values)}, n
-            except ValueError:
-                return None, n
-    return None, None
+                out.append((n.targets[0].id, {const(k): const(v) for k, v in zip(n.value.keys, n.value.values)}, n))
+            except (ValueError, TypeError):
+                continue
+    return out
 
 
 def tables(rep):
     w = rep.f(N2G, "NXToGML._convert_graph_to_gml")
     r = rep.f(G2N, "GMLToNX._parse_element")
-    o2l, n1 = _dict_literal(w, "order_to_label")
-    l2o, n2 = _dict_literal(r, "label_to_order")
-    if o2l is None or l2o is None:
+    GR, SEC = w.params[0], w.params[1]
+    # the writer's table is the literal dict whose .get() result is printed as an edge label; the reader's the one whose .get() feeds add_edge(order=...)
+    wl = [(nm, d, n) for nm, d, n in _dict_literals(w) if all(isinstance(v, str) for v in d.values())]
+    rl = [(nm, d, n) for nm, d, n in _dict_literals(r) if all(isinstance(k, str) for k in d)]
+    if len(wl) != 1 or len(rl) != 1:
         raise AnalysisError("GML bond tables not found as literal dicts")
+    (WT, o2l, n1), (RT, l2o, n2) = wl[0], rl[0]
     inv = {v: k for k, v in o2l.items()}
     rep.ob("O10.1", "R3c", w, inv == l2o and len(inv) == len(o2l), f"writer {o2l} / reader {l2o}", "bond order -> label and label -> bond order are mutually inverse", node=n1)
     rep.ob("O10.1", "R3c", w, set(o2l) >= {1, 1.5, 2, 3}, sorted(o2l), "single, aromatic, double and triple bonds all have a label")
     # the section writer looks the order up with this table and prints it as the label
-    uses = [c for c in walk_local(w.node) if isinstance(c, ast.Call) and norm(c.func) == "order_to_label.get"]
+    uses = [c for c in walk_local(w.node) if isinstance(c, ast.Call) and norm(c.func) == f"{WT}.get"]
     pm = parent_map(w.node)
-    lr = [c for c in uses if any(norm(t).replace(" ", "") == "section!='context'" and s for t, s in guards_of(pm, c, w.node))]
-    ok = bool(lr) and norm(lr[0].args[0]).replace(" ", "") == "edge[2].get('order',1)"
-    rep.ob("O10.1", "R3c", w, ok, lr[0] if lr else "order_to_label.get", "left/right bonds are labelled by their own order")
-    use_r = [c for c in walk_local(r.node) if isinstance(c, ast.Call) and norm(c.func) == "label_to_order.get"]
+    lr = [c for c in uses if any(norm(t).replace(" ", "") == f"{SEC}!='context'" and s_ for t, s_ in guards_of(pm, c, w.node))]
+    ok = False
+    if lr:
+        el = enclosing_loops(pm, lr[0], w.node)
+        ok = bool(el) and pmatch(f"{GR}.edges(data=True)", el[0].iter) is not None and pmatch(f"{norm(el[0].target)}[2].get('order', 1)", lr[0].args[0]) is not None
+        # ... and the looked-up label is what the edge line prints
+        lab = [nm for nm, ds in local_defs(w.node).items() for d_ in ds if d_.value is lr[0]]
+        js = [j for j in walk_local(el[0]) if isinstance(j, ast.JoinedStr) and any(isinstance(v_, ast.FormattedValue) and lab and norm(v_.value) == lab[0] for v_ in j.values)] if el else []
+        ok = ok and bool(js) and [norm(v_.value) for v_ in js[0].values if isinstance(v_, ast.FormattedValue)] == [f"{norm(el[0].target)}[0]", f"{norm(el[0].target)}[1]", lab[0]]
+    rep.ob("O10.1", "R3c", w, ok, "label = order_to_label.get(edge[2].get('order', 1), '-')", "left/right bonds are labelled by their own order (source, target, label printed in this order)")
+    use_r = [c for c in walk_local(r.node) if isinstance(c, ast.Call) and norm(c.func) == f"{RT}.get"]
     add = [c for c in walk_local(r.node) if isinstance(c, ast.Call) and call_name(c) == "add_edge"]
-    ok = bool(use_r) and norm(use_r[0].args[0]) == "label" and bool(add) and norm(kwarg(add[0], "order") or ast.Constant(None)) == "order" \
-        and [norm(a) for a in add[0].args] == ["source", "target"]
-    rep.ob("O10.1", "R3c", r, ok, add[0] if add else "add_edge", "the parsed label becomes the bond's order between the parsed end points")
+    ok = False
+    rd = local_defs(r.node)
+    if use_r and add:
+        TOK = [nm for nm, ds in rd.items() for d_ in ds if d_.kind == "assign" and pmatch(f"{r.params[1]}.split()", d_.value) is not None]
+        tk = TOK[0] if TOK else "?"
+
+        def field(e, key, conv):
+            src = origin(local_defs(_branch_of(r.node, add[0])), e) if isinstance(e, ast.Name) else e
+            pat = f"int({tk}[{tk}.index('{key}') + 1])" if conv == "int" else f"{tk}[{tk}.index('{key}') + 1].strip('\"')"
+            return pmatch(pat, src) is not None
+        okv = isinstance(kwarg(add[0], "order"), ast.Name) and any(d_.value is use_r[0] for d_ in rd.get(kwarg(add[0], "order").id, []))
+        ok = okv and len(add[0].args) == 2 and field(add[0].args[0], "source", "int") and field(add[0].args[1], "target", "int") and field(use_r[0].args[0], "label", "str")
+    rep.ob("O10.1", "R3c", r, ok, "add_edge(source, target, order=label_to_order.get(label, 0))", "the parsed label becomes the bond's order between the parsed end points")
+
+
+def _branch_of(fn, node):
+    """innermost If-branch body (as a Module) that contains `node`; the function itself if there is none"""
+    best = fn
+    for n in ast.walk(fn):
+        if isinstance(n, ast.If):
+            for body in (n.body, n.orelse):
+                if any(x is node for st in body for x in ast.walk(st)):
+                    best = ast.Module(body=body, type_ignores=[])
+    return best
 
 
 def charges(rep):
@@ -91,6 +124,8 @@ def charges(rep):
     rep.need("R3d", len(mcall), 1, "regex in _extract_element_and_charge")
     pattern = mcall[0].args[0].value
     rep.extra["charge_regex"] = pattern
+    MV = [nm for nm, ds in local_defs(rd.node).items() for d_ in ds if d_.value is mcall[0]]
+    MV = MV[0] if MV else "match"
     bad, n = [], 0
     try:
         rx = re.compile(pattern)
@@ -102,7 +137,7 @@ def charges(rep):
                 env = {norm(mcall[0]): (m if m else None), rd.params[1]: label}
                 if m:
                     for g in (1, 2, 3):
-                        env[f"match.group({g})"] = m.group(g)
+                        env[f"{MV}.group({g})"] = m.group(g)
                 got = eval_function(rd.node, env)
                 n += 1
                 if tuple(got) != (element, q):
@@ -114,28 +149,43 @@ def charges(rep):
            "every (element, charge) printed by the GML writer is parsed back to the same (element, charge)", {"cases": n, "disagreements": bad[:6]}, node=mcall[0])
     # label = element + charge string on the writer side, parsed through _extract_element_and_charge on the reader side
     w = rep.f(N2G, "NXToGML._convert_graph_to_gml")
+    GR = w.params[0]
+    pmw = parent_map(w.node)
     labs = [j for j in walk_local(w.node) if isinstance(j, ast.JoinedStr) and "label" in "".join(str(v.value) for v in j.values if isinstance(v, ast.Constant))
-            and any(isinstance(v, ast.FormattedValue) and norm(v.value) == "charge_str" for v in j.values)]
-    ok = bool(labs)
+            and "node" in "".join(str(v.value) for v in j.values if isinstance(v, ast.Constant))]
+    ok = len(labs) >= 2
     for j in labs:
-        fv = [norm(v.value) for v in j.values if isinstance(v, ast.FormattedValue)]
-        ok = ok and fv == ["node[0]", "element", "charge_str"]
-    rep.ob("O10.1", "R3d", w, ok, labs[0] if labs else "node label", "node lines print id, then element immediately followed by the charge string")
-    wd = local_defs(w.node, into_nested=False)
-    cs = [d for d in wd.get("charge_str", []) if d.kind == "assign"]
-    ok = bool(cs) and all(norm(d.value) == "NXToGML._charge_to_string(charge)" for d in cs) and \
-        all(norm(d.value).replace(" ", "") == "node[1].get('charge',0)" for d in wd.get("charge", []) if d.kind == "assign")
-    rep.ob("O10.1", "R3d", w, ok, [norm(d.value) for d in cs], "the charge string is computed from the node's own charge")
+        fv = [v.value for v in j.values if isinstance(v, ast.FormattedValue)]
+        el = enclosing_loops(pmw, j, w.node)
+        if not el or len(fv) != 3 or pmatch(f"{GR}.nodes(data=True)", el[0].iter) is None:
+            ok = False
+            continue
+        nd = norm(el[0].target)
+        ld = local_defs(el[0])
+        e_src, c_src = origin(ld, fv[1]), origin(ld, fv[2])
+        cm = pmatch("NXToGML._charge_to_string($q)", c_src)
+        ok = ok and norm(fv[0]) == f"{nd}[0]" and pmatch(f"{nd}[1].get('element', $$d)", e_src) is not None and cm is not None \
+            and pmatch(f"{nd}[1].get('charge', 0)", origin(ld, ast.Name(id=cm["q"], ctx=ast.Load()))) is not None
+        # element and charge string are adjacent (nothing printed between them)
+        vals = j.values
+        i_e = [i for i, v in enumerate(vals) if v is not None and isinstance(v, ast.FormattedValue) and v.value is fv[1]][0]
+        ok = ok and isinstance(vals[i_e + 1], ast.FormattedValue) and vals[i_e + 1].value is fv[2]
+    rep.ob("O10.1", "R3d", w, ok, 'node [ id {node[0]} label "{element}{charge_str}" ]', "node lines print id, then element immediately followed by the charge string")
+    rep.ob("O10.1", "R3d", w, ok, "charge_str = NXToGML._charge_to_string(node[1].get('charge', 0))", "the charge string is computed from the node's own charge")
     p = rep.f(G2N, "GMLToNX._parse_element")
     d = local_defs(p.node)
-    up = [x for x in d.get("element", []) if x.index is not None]
-    ok = bool(up) and up[0].index == (0,) and norm(up[0].value) == "self._extract_element_and_charge(label)"
     na = [n_ for n_ in walk_local(p.node) if isinstance(n_, ast.Dict) and any(isinstance(k, ast.Constant) and k.value == "charge" for k in n_.keys)]
     ok2 = False
     if na:
-        kv = {k.value: norm(v) for k, v in zip(na[0].keys, na[0].values)}
-        ok2 = kv.get("element") == "element" and kv.get("charge") == "charge" and kv.get("atom_map") == "node_id"
-    rep.ob("O10.1", "R3d", p, ok and ok2, na[0] if na else "node_attributes", "parsed element and charge are stored under 'element' and 'charge' of the parsed node id")
+        kv = {k.value: v for k, v in zip(na[0].keys, na[0].values)}
+        e_, c_, a_ = kv.get("element"), kv.get("charge"), kv.get("atom_map")
+        if all(isinstance(x, ast.Name) for x in (e_, c_, a_)):
+            ue = [x for x in d.get(e_.id, []) if x.index == (0,) and isinstance(x.value, ast.Call) and call_name(x.value) == "_extract_element_and_charge"]
+            uc = [x for x in d.get(c_.id, []) if x.index == (1,) and isinstance(x.value, ast.Call) and call_name(x.value) == "_extract_element_and_charge"]
+            adds = [c for c in walk_local(p.node) if isinstance(c, ast.Call) and call_name(c) == "add_node"]
+            ok2 = bool(ue) and bool(uc) and ue[0].value is uc[0].value and bool(adds) and norm(adds[0].args[0]) == a_.id \
+                and "index('id')" in norm(origin(local_defs(_branch_of(p.node, adds[0])), a_)) and "index('label')" in norm(origin(local_defs(_branch_of(p.node, adds[0])), ue[0].value.args[0]))
+    rep.ob("O10.1", "R3d", p, ok2, "{'element': element, 'charge': charge, 'atom_map': node_id}", "parsed element and charge are stored under 'element' and 'charge' of the parsed node id")
 
 
 # ------------------------------------------------------------------ O10.2
@@ -218,16 +268,17 @@ def producers(rep):
         rep.ob("O10.2", "SIB", fi, ok, kws, "options are forwarded unchanged to the GML writer")
     g2i = rep.f(CONV, "gml_to_its")
     d = local_defs(g2i.node)
-    up = [x for x in d.get("its", []) if x.index is not None]
-    ok = bool(up) and up[0].index == (2,) and "GMLToNX(gml).transform()" in norm(up[0].value)
+    grets = returns_of(g2i.node)
+    up = [x for x in d.get(norm(grets[-1].value) if grets else "", []) if x.index is not None]
+    ok = bool(up) and up[0].index == (2,) and f"GMLToNX({g2i.params[0]}).transform()" in norm(up[0].value)
     rep.ob("O10.2", "SIB", g2i, ok, "_, _, its = GMLToNX(gml).transform()", "gml_to_its returns the ITS member of the parsed triple")
     tr = rep.f(N2G, "NXToGML.transform")
     d = local_defs(tr.node)
-    up = [x for x in d.get("L", []) if x.index is not None]
-    ok = bool(up) and up[0].index == (0,) and [x.index for nm in ("R", "K") for x in d.get(nm, []) if x.index is not None][:2] == [(1,), (2,)]
+    slot = {x.index: nm for nm, xs in d.items() for x in xs if x.index is not None and norm(x.value) == tr.params[0]}
+    ok = set(slot) == {(0,), (1,), (2,)}
     rep.ob("O10.2", "SIB", tr, ok, "L, R, K = graph_rules", "the writer unpacks (left, right, context) in the order the producers pass")
     rg = [c for c in walk_local(tr.node) if isinstance(c, ast.Call) and call_name(c) == "_rule_grammar"]
-    ok = bool(rg) and [norm(a) for a in rg[0].args[:3]] == ["L", "R", "K"]
+    ok = ok and bool(rg) and [norm(a) for a in rg[0].args[:3]] == [slot[(0,)], slot[(1,)], slot[(2,)]]
     rep.ob("O10.2", "SIB", tr, ok, rg[0] if rg else "_rule_grammar", "and hands them on in that order")
     # the ids of charge-changing atoms are computed on the SAME numbering that is written out
     for reindex in (True, False):
@@ -252,7 +303,7 @@ def producers(rep):
                                 env[e.id] = f"{val}[{i}]"
                     for c in ast.walk(st.value):
                         if isinstance(c, ast.Call) and call_name(c) == "_rule_grammar" and len(c.args) >= 5:
-                            Ls, Rs = env.get("L", "L"), env.get("R", "R")
+                            Ls, Rs = env.get(norm(c.args[0]), norm(c.args[0])), env.get(norm(c.args[1]), norm(c.args[1]))
                             ids = env.get(norm(c.args[4]), norm(c.args[4]))
                             want = f"NXToGML._find_changed_nodes({_wrap(Ls)}, {_wrap(Rs)}, attributes)"
                             verdict = (ids.replace(" ", "") == want.replace(" ", ""), ids, want)
@@ -262,7 +313,8 @@ def producers(rep):
                        {"expected": verdict[2][:120]})
     gr = rep.f(N2G, "NXToGML._rule_grammar")
     secs = [(norm(c.args[0]), const(c.args[1])) for c in walk_local(gr.node) if isinstance(c, ast.Call) and call_name(c) == "_convert_graph_to_gml"]
-    rep.ob("O10.2", "SIB", gr, sorted(secs) == sorted([("L", "left"), ("K", "context"), ("R", "right")]), secs, "L is written as 'left', K as 'context', R as 'right'")
+    gp = gr.params
+    rep.ob("O10.2", "SIB", gr, sorted(secs) == sorted([(gp[0], "left"), (gp[2], "context"), (gp[1], "right")]), secs, "L is written as 'left', K as 'context', R as 'right'")
 
 
 # ------------------------------------------------------------------ O10.3
@@ -298,13 +350,24 @@ def mol_graph(rep):
     rep.ob("O10.3", "R3b", init, r_edge <= bond_keys, f"reader {sorted(r_edge)}", "every bond key GraphToMol reads is written by MolToGraph", {"writer": sorted(bond_keys)})
     g = rep.f(G2M, "GraphToMol.graph_to_mol")
     d = local_defs(g.node)
-    src = {nm: norm(origin(d, ast.Name(id=nm, ctx=ast.Load()))) for nm in ("element", "charge", "atom_map", "hcount")}
-    ok = "self.node_attributes['element']" in src["element"] and "self.node_attributes['charge']" in src["charge"] \
-        and "self.node_attributes['atom_map']" in src["atom_map"] and "data.get('hcount', 0)" in src["hcount"]
-    rep.ob("O10.3", "R3b", g, ok, src, "element, charge, atom map and hydrogen count are each read from their own key")
-    sets = {call_name(c): norm(c.args[0]) for c in walk_local(g.node) if isinstance(c, ast.Call) and call_name(c) in ("SetFormalCharge", "SetAtomMapNum", "SetNumExplicitHs", "Atom")}
-    ok = sets.get("Atom") == "element" and sets.get("SetFormalCharge") == "charge" and sets.get("SetAtomMapNum") == "atom_map" and sets.get("SetNumExplicitHs") == "int(hcount)"
-    rep.ob("O10.3", "R3b", g, ok, sets, "each value is applied to the matching RDKit atom property")
+    sets = {call_name(c): c.args[0] for c in walk_local(g.node) if isinstance(c, ast.Call) and call_name(c) in ("SetFormalCharge", "SetAtomMapNum", "SetNumExplicitHs", "Atom") and c.args}
+    nl = [l for l in walk_local(g.node) if isinstance(l, ast.For) and pmatch(f"{g.params[1]}.nodes(data=True)", l.iter) is not None]
+    DATA = norm(nl[0].target.elts[1]) if nl and isinstance(nl[0].target, ast.Tuple) else "?"
+
+    def reads(callname, key_text, unwrap=None):
+        e = sets.get(callname)
+        if e is None:
+            return False
+        if unwrap:
+            m_ = pmatch(f"{unwrap}($x)", e)
+            if not m_:
+                return False
+            e = ast.Name(id=m_["x"], ctx=ast.Load())
+        return f"{DATA}.get({key_text}" in norm(origin(d, e))
+    ok = reads("Atom", "self.node_attributes['element']") and reads("SetFormalCharge", "self.node_attributes['charge']") \
+        and reads("SetAtomMapNum", "self.node_attributes['atom_map']") and reads("SetNumExplicitHs", "'hcount', 0", unwrap="int")
+    rep.ob("O10.3", "R3b", g, ok, "Atom(element) / SetFormalCharge(charge) / SetAtomMapNum(atom_map) / SetNumExplicitHs(int(hcount))",
+           "element, charge, atom map and hydrogen count are each read from their own key and applied to the matching RDKit atom property")
     ni = [c for c in walk_local(g.node) if isinstance(c, ast.Call) and call_name(c) == "SetNoImplicit"]
     rep.ob("O10.3", "R3b", g, bool(ni) and is_const(ni[0].args[0], True), ni[0] if ni else "SetNoImplicit", "with explicit hydrogen counts RDKit must not add implicit ones")
     bt = rep.f(G2M, "GraphToMol.get_bond_type_from_order")
@@ -315,15 +378,25 @@ def mol_graph(rep):
         rep.ob("O10.3", "R3c", bt, got == want, got, "bond order -> RDKit bond type inverts GetBondTypeAsDouble (1, 2, 3, 1.5)")
     except Undecided as exc:
         rep.ob("O10.3", "R3c", bt, None, "get_bond_type_from_order", str(exc))
-    bo = origin(d, ast.Name(id="bond_order", ctx=ast.Load()))
-    rep.ob("O10.3", "R3b", g, "self.edge_attributes['order']" in norm(bo), bo, "the bond order is read from the 'order' key")
     ab = [c for c in walk_local(g.node) if isinstance(c, ast.Call) and call_name(c) == "AddBond"]
-    ok = bool(ab) and [norm(a) for a in ab[0].args] == ["node_to_idx[u]", "node_to_idx[v]", "bond_type"]
+    okb = ok = False
+    if ab and len(ab[0].args) == 3:
+        bl = enclosing_loops(parent_map(g.node), ab[0], g.node)
+        bt_src = origin(d, ab[0].args[2])
+        m_ = pmatch("self.get_bond_type_from_order($o)", bt_src)
+        if bl and m_ and isinstance(bl[0].target, ast.Tuple) and len(bl[0].target.elts) == 3:
+            u_, v_, ed_ = [norm(e) for e in bl[0].target.elts]
+            okb = f"{ed_}.get(self.edge_attributes['order']" in norm(origin(d, ast.Name(id=m_["o"], ctx=ast.Load())))
+            ma, mb = pmatch(f"$m[{u_}]", ab[0].args[0]), pmatch(f"$m[{v_}]", ab[0].args[1])
+            # the map is filled by  <m>[node] = mol.AddAtom(atom)
+            ok = ma is not None and mb is not None and ma["m"] == mb["m"] and nl and pall([f"$i = $mol.AddAtom($a)", f"{ma['m']}[{norm(nl[0].target.elts[0])}] = $i"], nl[0]) is not None
+    rep.ob("O10.3", "R3b", g, okb, "bond_order <- data.get(self.edge_attributes['order'], 1)", "the bond order is read from the 'order' key")
     rep.ob("O10.3", "R3b", g, ok, ab[0] if ab else "AddBond", "bonds join the atoms created for their own end nodes")
     bw = rep.f(M2G, "MolToGraph._gather_bond_properties")
-    o = origin(local_defs(bw.node), ast.Name(id="order", ctx=ast.Load()))
-    od = [x for x in local_defs(bw.node).get("order", []) if x.kind == "assign"]
-    rep.ob("O10.3", "R3b", bw, any(norm(x.value) == "bond.GetBondTypeAsDouble()" for x in od), [norm(x.value) for x in od], "the writer stores RDKit's bond type as a double under 'order'")
+    ov = [v for n in walk_local(bw.node) if isinstance(n, ast.Dict) for k, v in zip(n.keys, n.values) if isinstance(k, ast.Constant) and k.value == "order"]
+    od = [x for v in ov if isinstance(v, ast.Name) for x in local_defs(bw.node).get(v.id, []) if x.kind == "assign"] if ov else []
+    direct = [v for v in ov if pmatch("$b.GetBondTypeAsDouble()", v) is not None]
+    rep.ob("O10.3", "R3b", bw, bool(direct) or any(pmatch("$b.GetBondTypeAsDouble()", x.value) is not None for x in od), "'order': bond.GetBondTypeAsDouble()", "the writer stores RDKit's bond type as a double under 'order'")
     gs = rep.f(CONV, "graph_to_smi")
     cs = [c for c in walk_local(gs.node) if isinstance(c, ast.Call) and call_name(c) == "graph_to_mol"]
     ok = bool(cs) and all(is_const(kwarg(c, "use_h_count") or ast.Constant(False), True) for c in cs)
@@ -342,57 +415,74 @@ def hydrogens(rep):
     ex = rep.f(HY, "h_to_explicit")
     d = local_defs(ex.node)
     pm = parent_map(ex.node)
-    for fn, p in ((ex, "G"), (rep.f(HY, "h_to_implicit"), "G")):
+    for fn in (ex, rep.f(HY, "h_to_implicit")):
+        p = fn.params[0]
         muts = mutations(rep.repo, fn, p)
         rep.ob("O10.4", "R9", fn, not muts, muts[0][0] if muts else f"parameter `{p}`", f"{fn.qual} works on a copy: the input graph is not modified" + (f": {muts[0][1]}" if muts else ""),
                node=muts[0][0] if muts else fn.node)
-    cnt = [x for x in d.get("count", []) if x.kind == "assign"]
-    ok = bool(cnt) and norm(cnt[0].value).replace(" ", "") == "H2.nodes[heavy].get('hcount',0)"
-    rep.ob("O10.4", "R15", ex, ok, cnt[0].stmt if cnt else "count", "the number of hydrogens to add is the atom's own hcount")
+    rets = returns_of(ex.node)
+    H2 = norm(rets[-1].value) if rets and isinstance(rets[-1].value, ast.Name) else "?"
     lp = [l for l in walk_local(ex.node) if isinstance(l, ast.For) and isinstance(l.iter, ast.Call) and call_name(l.iter) == "range"]
-    ok = len(lp) == 1 and norm(lp[0].iter) == "range(count)"
-    rep.ob("O10.4", "R15", ex, ok, lp[0].iter if lp else "range", "exactly `count` hydrogen atoms are added")
-    if lp:
-        adds = [c for c in walk_local(lp[0]) if isinstance(c, ast.Call) and call_name(c) in ("add_node", "add_edge")]
-        kinds = sorted(call_name(c) for c in adds)
-        an = [c for c in adds if call_name(c) == "add_node"]
-        ae = [c for c in adds if call_name(c) == "add_edge"]
-        ok = kinds == ["add_edge", "add_node"] and is_const(kwarg(an[0], "element"), "H") and is_const(kwarg(an[0], "hcount"), 0) \
-            and norm(ae[0].args[0]) == "heavy" and norm(ae[0].args[1]) == norm(an[0].args[0]) and const(kwarg(ae[0], "order")) == 1
-        rep.ob("O10.4", "R15", ex, ok, [norm(c)[:50] for c in adds], "each new atom is a hydrogen with no hydrogens of its own, single-bonded to the heavy atom")
+    cm = pmatch("range($count)", lp[0].iter) if len(lp) == 1 else None
+    rep.ob("O10.4", "R15", ex, cm is not None, lp[0].iter if lp else "range", "exactly `count` hydrogen atoms are added")
+    if cm is None:
+        return
+    COUNT = cm["count"]
+    outer = enclosing_loops(pm, lp[0], ex.node)
+    HEAVY = norm(outer[0].target) if outer else "?"
+    cnt = [x for x in d.get(COUNT, []) if x.kind == "assign"]
+    ok = len(cnt) == 1 and pmatch(f"{H2}.nodes[{HEAVY}].get('hcount', 0)", cnt[0].value) is not None
+    rep.ob("O10.4", "R15", ex, ok, "count = H2.nodes[heavy].get('hcount', 0)", "the number of hydrogens to add is the atom's own hcount")
+    adds = [c for c in walk_local(lp[0]) if isinstance(c, ast.Call) and call_name(c) in ("add_node", "add_edge")]
+    kinds = sorted(call_name(c) for c in adds)
+    an = [c for c in adds if call_name(c) == "add_node"]
+    ae = [c for c in adds if call_name(c) == "add_edge"]
+    ok = kinds == ["add_edge", "add_node"] and is_const(kwarg(an[0], "element"), "H") and is_const(kwarg(an[0], "hcount"), 0) \
+        and norm(ae[0].args[0]) == HEAVY and norm(ae[0].args[1]) == norm(an[0].args[0]) and const(kwarg(ae[0], "order")) == 1 \
+        and norm(an[0].func.value) == H2 and norm(ae[0].func.value) == H2
+    rep.ob("O10.4", "R15", ex, ok, "add_node(new, element='H', hcount=0, ...); add_edge(heavy, new, order=1)", "each new atom is a hydrogen with no hydrogens of its own, single-bonded to the heavy atom")
     # fresh identifiers: the counter starts at the largest existing id and is advanced before every use
-    mx = [x for x in d.get("max_node", []) if x.kind == "assign"]
+    CTR = norm(an[0].args[0]) if an else "?"
+    mx = [x for x in d.get(CTR, []) if x.kind == "assign"]
     src = norm(mx[0].value).replace(" ", "") if mx else ""
-    ok = src in ("max(H2.nodes)ifH2.nodeselse0", "max(H2.nodes,default=0)", "max(H2.nodes())ifH2.nodes()else0", "max(H2.nodes(),default=0)", "max(H2)ifH2else0")
-    rep.ob("O10.4", "R15", ex, ok if mx else None, mx[0].stmt if mx else "max_node", "new hydrogen ids start above the largest existing node id (they can never overwrite an atom)")
-    if lp:
-        inc = [n for n in lp[0].body if isinstance(n, ast.AugAssign) and norm(n.target) == "max_node" and isinstance(n.op, ast.Add) and is_const(n.value, 1)]
-        first_use = [c for c in walk_local(lp[0]) if isinstance(c, ast.Call) and call_name(c) == "add_node"]
-        ok = len(inc) == 1 and bool(first_use) and inc[0].lineno < first_use[0].lineno and norm(first_use[0].args[0]) == "max_node"
-        rep.ob("O10.4", "R15", ex, ok, inc[0] if inc else "max_node += 1", "the id counter is advanced before each new hydrogen is created")
-    sub = [n for n in walk_local(ex.node) if isinstance(n, ast.AugAssign) and norm(n.target).replace(" ", "") == "H2.nodes[heavy]['hcount']"]
-    ok = len(sub) == 1 and isinstance(sub[0].op, ast.Sub) and norm(sub[0].value) == "count" and not [l for l in enclosing_loops(pm, sub[0], ex.node) if l in lp]
-    rep.ob("O10.4", "R15", ex, ok, sub[0] if sub else "hcount -= count", "the implicit count is reduced by exactly the number of hydrogens made explicit (total hydrogen count unchanged)")
+    ok = src in (f"max({H2}.nodes)if{H2}.nodeselse0", f"max({H2}.nodes,default=0)", f"max({H2}.nodes())if{H2}.nodes()else0", f"max({H2}.nodes(),default=0)", f"max({H2})if{H2}else0")
+    rep.ob("O10.4", "R15", ex, ok if mx else None, "max_node = max(H2.nodes) if H2.nodes else 0" if ok else (alpha(mx[0].stmt, ex.node) if mx else "max_node"),
+           "new hydrogen ids start above the largest existing node id (they can never overwrite an atom)")
+    inc = [n for n in lp[0].body if isinstance(n, ast.AugAssign) and norm(n.target) == CTR and isinstance(n.op, ast.Add) and is_const(n.value, 1)]
+    ok = len(inc) == 1 and bool(an) and inc[0].lineno < an[0].lineno
+    rep.ob("O10.4", "R15", ex, ok, "max_node += 1 before add_node(max_node, ...)", "the id counter is advanced before each new hydrogen is created")
+    sub = [n for n in walk_local(ex.node) if isinstance(n, ast.AugAssign) and pmatch(f"{H2}.nodes[{HEAVY}]['hcount']", n.target) is not None]
+    ok = len(sub) == 1 and isinstance(sub[0].op, ast.Sub) and norm(sub[0].value) == COUNT and not [l for l in enclosing_loops(pm, sub[0], ex.node) if l in lp]
+    rep.ob("O10.4", "R15", ex, ok, "H2.nodes[heavy]['hcount'] -= count" if ok else (alpha(sub[0], ex.node) if sub else "hcount -= count"),
+           "the implicit count is reduced by exactly the number of hydrogens made explicit (total hydrogen count unchanged)")
     im = rep.f(HY, "h_to_implicit")
     pm = parent_map(im.node)
-    hn = origin(local_defs(im.node), ast.Name(id="h_nodes", ctx=ast.Load()))
-    ok = norm(hn).replace(" ", "") == "[nforn,dinH2.nodes(data=True)ifd.get('element')=='H']"
-    rep.ob("O10.4", "R15", im, ok, hn, "all hydrogen atoms are collected")
-    incs = [(t, v, st) for t, v, st in assigned_subscripts(im.node) if is_const(t.slice, "hcount")]
-    ok = False
-    if len(incs) == 1:
-        t, v, st = incs[0]
-        try:
-            lf = linform(v, lambda n: "old" if norm(n).replace(" ", "") == "H2.nodes[heavy].get('hcount',0)" else None)
-            gs = [norm(g).replace(" ", "") for g, s in guards_of(pm, st, im.node) if s]
-            ok = lf == Lin({"old": 1, 1: 1}) and gs == ["H2.nodes[heavy].get('element')!='H'"]
-        except Undecided:
-            ok = None
-    rep.ob("O10.4", "R15", im, ok, incs[0][2] if incs else "hcount + 1", "each removed hydrogen adds one to every heavy neighbour (and only to heavy neighbours)")
+    idefs = local_defs(im.node)
+    rets = returns_of(im.node)
+    H2 = norm(rets[-1].value) if rets and isinstance(rets[-1].value, ast.Name) else "?"
     rm = [c for c in walk_local(im.node) if isinstance(c, ast.Call) and call_name(c) == "remove_node"]
     lps = enclosing_loops(pm, rm[0], im.node) if rm else []
-    ok = len(rm) == 1 and norm(rm[0].args[0]) == "h" and len(lps) == 1 and norm(lps[0].iter) == "h_nodes" and not guards_of(pm, rm[0], lps[0])
-    rep.ob("O10.4", "R15", im, ok, rm[0] if rm else "remove_node", "every collected hydrogen atom is removed")
+    hn = origin(idefs, lps[0].iter) if lps else None
+    ok = hn is not None and pmatch(f"[$n for $n, $d in {H2}.nodes(data=True) if $d.get('element') == 'H']", hn) is not None
+    rep.ob("O10.4", "R15", im, ok, "h_nodes = [n for n, d in H2.nodes(data=True) if d.get('element') == 'H']", "all hydrogen atoms are collected")
+    ok = len(rm) == 1 and len(lps) == 1 and norm(rm[0].args[0]) == norm(lps[0].target) and norm(rm[0].func.value) == H2 and not guards_of(pm, rm[0], lps[0])
+    rep.ob("O10.4", "R15", im, ok, "H2.remove_node(h)", "every collected hydrogen atom is removed")
+    incs = [(t, v, st) for t, v, st in assigned_subscripts(im.node) if is_const(t.slice, "hcount")]
+    ok = False
+    if len(incs) == 1 and lps:
+        t, v, st = incs[0]
+        hl = enclosing_loops(pm, st, im.node)
+        HEAVY = norm(hl[0].target) if hl else "?"
+        try:
+            lf = linform(v, lambda n: "old" if norm(n).replace(" ", "") == f"{H2}.nodes[{HEAVY}].get('hcount',0)" else None)
+            gs = [norm(g).replace(" ", "") for g, s_ in guards_of(pm, st, im.node) if s_]
+            nb = origin(idefs, hl[0].iter) if hl else None
+            ok = lf == Lin({"old": 1, 1: 1}) and gs == [f"{H2}.nodes[{HEAVY}].get('element')!='H'"] and pmatch(f"{H2}.nodes[{HEAVY}]['hcount']", t) is not None \
+                and len(hl) == 2 and hl[1] is lps[0] and nb is not None and norm(nb) in (f"list({H2}.neighbors({norm(lps[0].target)}))", f"{H2}.neighbors({norm(lps[0].target)})")
+        except Undecided:
+            ok = None
+    rep.ob("O10.4", "R15", im, ok, "hcount = hcount + 1 for every heavy neighbour of a removed hydrogen" if ok else (alpha(incs[0][2], im.node) if incs else "hcount + 1"),
+           "each removed hydrogen adds one to every heavy neighbour (and only to heavy neighbours)")
 
 
 def implicit_h(rep, oid="O10.4"):
